@@ -48,18 +48,19 @@ def sgrLenReset := 4   -- ESC[0m
 def sgrLenBgDef := 5   -- ESC[49m
 def elLen := 4         -- ESC[0K / ESC[1K
 
-/-- core.DisplayLine on (highlighted line ++ Reset ++ EL0), tokens only -/
-def displayLine (w indent : Nat) (l : List Nat) : List Tk :=
+/-- core.DisplayLine on (highlighted line ++ Reset ++ EL0 if `clr`), tokens only; `clr` = the line does
+not end on the last column (`Engine.displayLine`) -/
+def displayLine (w indent : Nat) (l : List Nat) (clr : Bool := true) : List Tk :=
   let lines := splitNL l
   let last := lines.length - 1
   (lines.zipIdx.map fun (ln, num) =>
     let isLast := num = last
-    -- byte length of the Go string for this sub-line
-    let blen := ln.length + (if isLast then sgrLenReset + elLen else 0) + sgrLenBgDef + (if num > 0 then elLen else 0)
+    -- the sub-line ends on the last column of a row
+    let atMargin := (ln.length + indent) % w == 0 && ln.length + indent > 0
     (if num > 0 then mv .cuf indent ++ [.el1] else []) ++
     (if ln.isEmpty then [] else [.text ln]) ++
-    (if isLast then [.el0] else []) ++
-    (if !isLast then (if blen + indent < w then [.el0] else []) ++ [.crlf] else [])).flatten
+    (if isLast && clr then [.el0] else []) ++
+    (if !isLast then (if atMargin then [] else [.el0]) ++ [.crlf] else [])).flatten
 
 def countNL (l : List Nat) : Nat := (l.filter (· = 10)).length
 
@@ -71,7 +72,7 @@ def refresh (w : Nat) (prompt : List Nat) (sec : List Nat) (prevCursorRow : Nat)
   let (lineCol, lineRows) := coordsLine w l startCols
   [.hide] ++ mv .cub w ++ (if !primaryPrinted then mv .cuu prevCursorRow else []) ++
   [.text prompt, .dsr] ++
-  displayLine w startCols l ++
+  displayLine w startCols l (lineCol != 0) ++
   (if lineCol = 0 then [.crlf, .el0] else []) ++
   -- displayMultilinePrompts
   (if countNL l > 1 then mv .cuu lineRows ++ mv .cub w else []) ++
